@@ -74,9 +74,22 @@ partial def render : GoVal → String
   | .str s => "s:" ++ toHex s.toUTF8.toList
   | .slice xs => "[" ++ ",".intercalate (xs.map render) ++ "]"
   | .map kvs =>
-    let es := kvs.map (fun p => render p.1 ++ "=" ++ render p.2)
+    -- a Go map holds one entry per key: source keys that a narrowing conversion maps to the same
+    -- target key collapse (entries that are equal after conversion are one entry)
+    let es := (kvs.map (fun p => render p.1 ++ "=" ++ render p.2)).eraseDups
     "{" ++ ",".intercalate (es.foldl (fun acc e => insertSorted e acc) []) ++ "}"
   | .struct fs => "(" ++ ",".intercalate (fs.map (fun p => String.ofList p.1 ++ ":" ++ render p.2)) ++ ")"
+
+/-- two entries of a converted map have the same key and different values: which one the Go map
+    keeps depends on the iteration order of the source map -/
+partial def keyClash : GoVal → Bool
+  | .slice xs => xs.any keyClash
+  | .struct fs => fs.any (fun p => keyClash p.2)
+  | .map kvs =>
+    let es := kvs.map (fun p => (render p.1, render p.2))
+    kvs.any (fun p => keyClash p.1 || keyClash p.2) ||
+      es.any (fun a => es.any (fun b => a.1 == b.1 && a.2 != b.2))
+  | _ => false
 
 def splitBar (ws : List String) : List (List String) :=
   ws.foldr (fun w acc => if w == "|" then [] :: acc else match acc with
@@ -91,7 +104,7 @@ def run (args : List String) : String :=
       match parseType tt, parseVal vt with
       | some (t, []), some (v, []) =>
         match convert nativeOps t v with
-        | .ok r => "ok " ++ render r
+        | .ok r => if keyClash r then "nondet" else "ok " ++ render r
         | .error _ => "err"
       | _, _ => "bad-op"
     | _ => "bad-op"
@@ -104,9 +117,10 @@ def run (args : List String) : String :=
         match convert nativeOps t v with
         | .error _ => "err"
         | .ok r =>
+          if keyClash r then "nondet" else
           match convert nativeOps s r with
           | .error _ => "ok " ++ render r ++ " back err"
-          | .ok b => "ok " ++ render r ++ " back " ++ render b
+          | .ok b => if keyClash b then "nondet" else "ok " ++ render r ++ " back " ++ render b
       | _, _, _ => "bad-op"
     | _ => "bad-op"
   | _ => "bad-op"
